@@ -80,7 +80,7 @@ Definition n_First : list N := [70; 105; 114; 115; 116].
 
 Definition get_int (d : list (list N * pobj)) (k : list N) : option N :=
   match dict_get d k with
-  | Some (PInt z) => if (0 <=? z)%Z then Some (Z.to_N z) else None
+  | Some (SpInt z) => if (0 <=? z)%Z then Some (Z.to_N z) else None
   | _ => None
   end.
 
@@ -113,10 +113,10 @@ Definition parse_indirect (fuel : nat) (total : N) (file : list N) (off : N) (le
                             match r5 with
                             | 13 :: 10 :: data | 10 :: data =>
                                 match v with
-                                | PDict d =>
+                                | SpDict d =>
                                     let len := match dict_get d n_Length with
-                                               | Some (PInt z) => if (0 <=? z)%Z then Some (Z.to_N z) else None
-                                               | Some (PRef n _) => len_of n
+                                               | Some (SpInt z) => if (0 <=? z)%Z then Some (Z.to_N z) else None
+                                               | Some (SpRef n _) => len_of n
                                                | _ => None
                                                end in
                                     match len with
@@ -281,7 +281,7 @@ Fixpoint png_unfilter (fuel : nat) (cols : nat) (d : list N) (prev : list N) : o
 Definition decode_struct_stream (d : list (list N * pobj)) (raw : list N) : option (list N) :=
   match dict_get d n_Filter with
   | None => Some raw
-  | Some (PName f) =>
+  | Some (SpName f) =>
       if negb (beq f n_FlateDecode) then None else
       match zlib_inflate raw with
       | None => None
@@ -289,7 +289,7 @@ Definition decode_struct_stream (d : list (list N * pobj)) (raw : list N) : opti
           if negb (consumed =? N.of_nat (length raw)) then None else
           match dict_get d n_DecodeParms with
           | None => Some out
-          | Some (PDict dp) =>
+          | Some (SpDict dp) =>
               match get_int dp n_Predictor with
               | None => Some out
               | Some p => if p <? 10 then (if p =? 1 then Some out else None) else
@@ -341,7 +341,7 @@ Fixpoint xstream_index (fuel : nat) (idx : list pobj) (w0 w1 w2 : nat) (d : list
   | S f =>
       match idx with
       | [] => match d with [] => Some acc | _ => None end      (* no trailing bytes *)
-      | PInt s :: PInt c :: rest =>
+      | SpInt s :: SpInt c :: rest =>
           if (s <? 0)%Z || (c <? 0)%Z then None else
           match xstream_entries (Z.to_nat c) (Z.to_N s) w0 w1 w2 d acc with
           | Some (acc', d') => xstream_index f rest w0 w1 w2 d' acc'
@@ -377,7 +377,7 @@ Definition read_section (fuel : nat) (total sx : N) (file : list N) (xoff : N) :
           | None => inr 3
           | Some (ents, r2) =>
               match parse_obj fuel r2 with
-              | Some (PDict d, r3) =>
+              | Some (SpDict d, r3) =>
                   if has_dup_keys d then inr 17 else
                   let (v, r4) := opt_tail total sx r3 in
                   inl {| sec_entries := ents; sec_dict := d; sec_is_stream := false;
@@ -392,20 +392,20 @@ Definition read_section (fuel : nat) (total sx : N) (file : list N) (xoff : N) :
       | inl None => inr 5
       | inl (Some o) =>
           match so_val o, so_stream o with
-          | PDict d, Some (doff, len) =>
+          | SpDict d, Some (doff, len) =>
               if has_dup_keys d then inr 17 else
               match dict_get d n_Type with
-              | Some (PName t) =>
+              | Some (SpName t) =>
                   if negb (beq t n_XRef) then inr 5 else
                   match dict_get d n_W, get_int d n_Size with
-                  | Some (PArr [PInt a; PInt b; PInt c]), Some size =>
+                  | Some (SpArr [SpInt a; SpInt b; SpInt c]), Some size =>
                       let raw := firstn (N.to_nat len) (at_off file doff) in
                       match decode_struct_stream d raw with
                       | None => inr 18
                       | Some data =>
                           let idx := match dict_get d n_Index with
-                                     | Some (PArr l) => l
-                                     | _ => [PInt 0; PInt (Z.of_N size)]
+                                     | Some (SpArr l) => l
+                                     | _ => [SpInt 0; SpInt (Z.of_N size)]
                                      end in
                           match xstream_index (S (length idx)) idx (Z.to_nat a) (Z.to_nat b) (Z.to_nat c) data [] with
                           | None => inr 5
@@ -452,7 +452,7 @@ Fixpoint read_chain (fuel : nat) (pfuel : nat) (total sx : N) (file : list N) (x
       | inl sec =>
           match dict_get (sec_dict sec) n_Prev with
           | None => inl [sec]
-          | Some (PInt p) =>
+          | Some (SpInt p) =>
               if (p <? 0)%Z then inr (16, xoff) else
               match read_chain f pfuel total sx file (Z.to_N p) (xoff :: seen) with
               | inl more => inl (sec :: more)
@@ -553,7 +553,7 @@ Definition read_strict (file : list N) : rs_result :=
                                          | Some (XInUse off _) =>
                                              match parse_indirect fuel total file off (fun _ => None) with
                                              | inl (Some o) => match so_val o with
-                                                               | PInt z => if (0 <=? z)%Z then Some (Z.to_N z) else None
+                                                               | SpInt z => if (0 <=? z)%Z then Some (Z.to_N z) else None
                                                                | _ => None
                                                                end
                                              | _ => None
@@ -593,13 +593,13 @@ Definition read_strict (file : list N) : rs_result :=
                                    match find_obj stm with
                                    | Some so =>
                                        match so_val so, so_stream so with
-                                       | PDict d, Some (doff, len) =>
+                                       | SpDict d, Some (doff, len) =>
                                            match dict_get d n_Type, get_int d n_N, get_int d n_First with
-                                           | Some (PName t), Some n, Some first =>
+                                           | Some (SpName t), Some n, Some first =>
                                                if negb (beq t n_ObjStm) then inr (13, stm) else
                                                if encrypted then
                                                  (* contents of object streams are encrypted: only the slot count is checked *)
-                                                 if idx <? n then inl ({| so_num := k; so_gen := 0; so_where := XComp stm idx; so_val := PNull;
+                                                 if idx <? n then inl ({| so_num := k; so_gen := 0; so_where := XComp stm idx; so_val := SpNull;
                                                                            so_stream := None; so_end := 0 |} :: cobjs)
                                                  else inr (14, k)
                                                else
@@ -645,7 +645,7 @@ Definition read_strict (file : list N) : rs_result :=
                           | Some size =>
                               if negb (size =? max_num xr 0 + 1) then RsErr 11 xoff else
                               match dict_get d n_Root with
-                              | Some (PRef rn _) =>
+                              | Some (SpRef rn _) =>
                                   match lookup_x rn xr with
                                   | Some (XFree _ _) | None => RsErr 12 xoff
                                   | Some _ =>
@@ -663,7 +663,7 @@ Definition read_strict (file : list N) : rs_result :=
                                                   sf_startxref := xoff; sf_regions := regions |}
                                       end
                                   end
-                              | Some (PDict _) =>
+                              | Some (SpDict _) =>
                                   (* a direct /Root (preserved by qpdf from a damaged input) is "present" *)
                                   let body_regions := map (fun o => (match so_where o with XInUse off _ => off | _ => 0 end, so_end o))
                                                           (filter (fun o => negb (existsb (fun s => match sec_obj s with
